@@ -120,14 +120,14 @@ def make_replay_factory(by_name):
     return make_replay
 
 
-def validate_runs(res, prop, path, label, by_name, is_known=None):
+def validate_runs(res, prop, path, label, by_name, is_known=None, max_rounds=40):
     """One `run` record per TLC state; an offending record is removed and the
     rest examined (records are independent)."""
     lines = V.read_trace(path)
     found = 0
     cur = path
     make_replay = make_replay_factory(by_name)
-    for attempt in range(40):
+    for attempt in range(max_rounds):
         if not lines:
             break
         r = V.tlc_trace("RunnerTrace", f"RunnerTrace_{prop}", cur)
@@ -153,7 +153,7 @@ def validate_runs(res, prop, path, label, by_name, is_known=None):
             for x in lines:
                 f.write(json.dumps(x) + "\n")
     else:
-        res.notes.append(f"{label}: stopped after 40 offending runs")
+        res.notes.append(f"{label}: stopped after {max_rounds} offending runs")
     return found
 
 
